@@ -4,17 +4,21 @@ Proof side: lean/TallyVerif/Props/C20.lean (`readonly_frame`/`up_frame` for arbi
 `migration_only_on_request`, `init_frame`, `init_creates_only_missing`, D15c via init).
 Tie (this file): generated budgets (old `./config` and new `./tally/config` layout; every settings kind;
 legacy CSV absent / header-only / with rules; merchants.rules, .bak, views.rules, data/output present or
-not) × command sequences (up, up -q, up --format summary|json, explain, discover, diag, inspect, init,
+not; optionally with the user's own .gitignore / README / notes / dotfiles / look-alike files in and beside
+the budget folder, and with settings that reference a views file, rules file or statement that is not there)
+× command sequences (up, up -q, up --format summary|json, explain, discover, diag, inspect, init,
 up --migrate), each command run by the real `tally.cli.main()` in a forked child of a `/venv/bin/python`
 server with stdin closed, under `sys.addaudithook`; content of every file before/after.
   correspondence   changed paths of the real run == changed paths of the model (`tvdrv` op `fsseq`)
   oracle           (implementation only) read-only commands change and open-for-write nothing outside the
                    output location; `init` / `up --migrate` keep every existing file (settings may only be
-                   appended to; the CSV may only move to a backup name that was free).
+                   appended to; the CSV may only move to a backup name that was free; permission bits stay) and
+                   create only the files they are documented to create.
 PARTIAL: argparse/terminal glue and OS durability are not modelled; writes outside the budget directory
 (none observed) are reported in the evidence but are not "the user's statements, rules or settings".
 """
 import json
+import re
 
 from .. import common, fsmon, regen
 from . import c15
@@ -26,6 +30,64 @@ WRITERS = [(['init'], 'init'), (['up', '--migrate'], 'upMigrateHtml')]
 REQUIRED = ('up/explain/discover/diag/inspect write nothing except the report files in the output location and leave every other file '
             'byte-identical; init keeps every existing file (settings.yaml may only gain appended lines) and creates only what is missing; '
             'rule migration happens only on request and keeps the original rules as a backup')
+
+
+# ---- what else a budget folder holds ------------------------------------------------------------------------------------------------
+# The property quantifies over ALL budget directories and speaks of "every … file": a real folder holds more than tally's own seven files.
+# (a) files of the user's own inside the budget folder — a `.gitignore` they wrote (tally's `init` has a starter for that name), README /
+#     notes / dotfiles, files whose names resemble tally's own (old copies of settings / rules / views, rule files one level up);
+# (b) for the new layout, files beside `tally/` in the working directory;
+# (c) settings that point at files which are not there: `views_file:` as a real key without the views file (the starter settings tell the
+#     user to "create config/views.rules and uncomment"), `merchants_file:` without the rules file (shapes keyRules / keyOther with
+#     rules absent were generated before), a data source whose statement is missing.
+# The frame condition is the same as before and is checked over the whole tree: a read-only command changes nothing outside the output
+# location; `init` / `up --migrate` keep every file that existed — bytes and permission bits — and create only tally's documented files.
+
+GITIGNORES = {'unrelated': '# mine 5e1f\n*.pyc\n.venv/\n', 'data-only': 'node_modules/\ndata/\n', 'both-other-spelling': '# kept by hand 77aa\n/data/\noutput\n',
+              'negation': 'data/*\n!data/keep.csv\n', 'empty': '', 'no-final-newline': '*.log', 'tallys-own': '# Tally - Ignore sensitive data\ndata/\noutput/\n'}
+FOREIGN = [('README.md', '# household budget 31c0\n'), ('notes.txt', 'ask bank about fee 9d2e\n'), ('.env', 'TOKEN=abc-4f4f\n'),
+           ('.DS_Store', '\x00\x01Bud1 a8a8'), ('budget-2024.xlsx', 'PK\x03\x04 not really 1b1b'),
+           ('config/settings.yaml.bak', 'year: 2019\n# old copy c3c3\n'), ('config/settings.yml', 'year: 1999\n'),
+           ('config/merchants.rules.old', '[Old]\nmatch: contains("OLD")\ncategory: Old\nsubcategory: Old\n'),
+           ('config/merchants.rules~', '# editor backup e5e5\n'), ('config/views.rules.example', '# example views f6f6\n'),
+           ('config/notes.md', 'why these categories 0a0b\n'), ('merchants.rules', '# a rules file one level up 1c1d\n'),
+           ('views.rules', '# a views file one level up 2e2f\n'), ('settings.yaml', 'year: 1987\n'),
+           ('data/notes.txt', 'downloaded 2025-02-01 3a3b\n'), ('data/archive/bank-2023.csv', 'Date,Description,Amount\n2023-01-05,OLD SHOP,1.00\n'),
+           ('data/bank.csv.orig', 'unedited export 4c4d\n'), ('scripts/fetch.sh', '#!/bin/sh\necho fetch 5e5f\n')]
+MODES = [None, None, None, 0o600, 0o444, 0o755, 0o640]
+
+
+def gen_variation(rng, shape, layout):
+    """case-level variations of the budget (all optional; about half of the cases keep the bare shape)"""
+    v = {}
+    if shape['settings'] != 'absent':
+        if shape.get('mentionsVF') and rng.random() < 0.6:
+            v['vf_key'] = True
+        if rng.random() < 0.2:
+            v['missing_source'] = True
+    if rng.random() < 0.5:
+        return v
+    extra = {}
+    if rng.random() < 0.6:
+        kind = rng.choice(sorted(GITIGNORES))
+        extra['.gitignore'] = {'text': GITIGNORES[kind], 'mode': rng.choice(MODES), 'kind': kind}
+    for rel, txt in rng.sample(FOREIGN, rng.choice([0, 1, 2, 3])):
+        if rel.startswith('data/') and not shape.get('dirs'):
+            continue
+        extra[rel] = {'text': txt, 'mode': rng.choice(MODES)}
+    if extra:
+        v['extra_files'] = extra
+    if layout == 'new' and rng.random() < 0.4:
+        v['root_files'] = dict([('.gitignore', GITIGNORES[rng.choice(sorted(GITIGNORES))])] * (rng.random() < 0.7) +
+                               [(rel, txt) for rel, txt in rng.sample(FOREIGN[:5], rng.choice([0, 1]))])
+        if not v['root_files']:
+            del v['root_files']
+    return v
+
+
+def model_extra(case):
+    """the user's files the Lean model can name: a `.gitignore` in the budget folder"""
+    return ['gitignore'] if '.gitignore' in (case.get('extra_files') or {}) else []
 
 
 def gen_cases(rng, quick):
@@ -47,7 +109,8 @@ def gen_cases(rng, quick):
             seq = [rng.choice(READONLY), (['up'], 'up'), WRITERS[i % 2], rng.choice(READONLY)]
         data = ('tally/' if layout == 'new' else '') + 'data/bank.csv'
         cmds = [[(data if a == 'DATA' else a) for a in argv] for argv, _ in seq]
-        cases.append({'kind': 'c20', 'shape': s, 'layout': layout, 'commands': cmds, 'programs': [p for _, p in seq]})
+        cases.append(dict({'kind': 'c20', 'shape': s, 'layout': layout, 'commands': cmds, 'programs': [p for _, p in seq]},
+                          **gen_variation(rng, s, layout)))
     return cases
 
 
@@ -69,6 +132,23 @@ def out_paths(prefix):
     return OutSet(prefix)
 
 
+INIT_CREATES = {'config', 'data', 'output', '.gitignore', 'config/settings.yaml', 'config/merchants.rules', 'config/views.rules'}
+BACKUP_NAME = re.compile(r'config/(merchant_categories\.csv|merchants\.rules)\.bak(\.\d+)?')
+
+
+def documented_creation(p, prefix, prog):
+    """what `tally init` (docs: config/ data/ output/, the three starter files, .gitignore — each only if missing; the rule migration's
+    merchants.rules and backup) and `tally up --migrate` (merchants.rules, the backup, the report) are documented to create"""
+    if prefix and p == prefix:
+        return True
+    rel = p[len(prefix) + 1:] if (prefix and p.startswith(prefix + '/')) else p
+    if rel == 'output' or rel.startswith('output/'):
+        return True
+    if BACKUP_NAME.fullmatch(rel) or rel == 'config/merchants.rules':
+        return True
+    return prog == 'init' and rel in INIT_CREATES
+
+
 def oracle(case, res):
     fails = []
     prefix = res.get('prefix', '')
@@ -86,8 +166,17 @@ def oracle(case, res):
                 fails.append(dict(where, **{'class': 'readonly-command-opened-for-write', 'observed': f'{" ".join(st["argv"])} opened/renamed/removed {badw}'}))
         else:
             for p, d in st['detail'].items():
-                if d['before'] in ('absent',) or (prog == 'upMigrateHtml' and p in OUT):
-                    continue                               # created: allowed (only what was missing)
+                if prog == 'upMigrateHtml' and p in OUT:
+                    continue
+                if d['before'] in ('absent',):             # created: only what was missing, and only tally's documented files
+                    if not documented_creation(p, prefix, prog):
+                        fails.append(dict(where, **{'class': 'created-undocumented-path', 'path': p,
+                                                    'observed': f'{" ".join(st["argv"])} created {p}, which is none of the files it is documented to create'}))
+                    continue
+                if 'mode' in d and d['before'] == d['after']:
+                    fails.append(dict(where, **{'class': 'existing-file-mode-changed', 'path': p,
+                                                'observed': f'{" ".join(st["argv"])}: permission bits of {p} {d["mode"][0]} -> {d["mode"][1]}'}))
+                    continue
                 if d['before'] == 'dir':
                     if d['after'] != 'dir':
                         fails.append(dict(where, **{'class': 'directory-removed', 'observed': f'{p} removed'}))
@@ -98,8 +187,10 @@ def oracle(case, res):
                     continue                               # moved; whether the target was free is judged at the target
                 if d['after'] not in ('absent', 'dir') and d['moved_to']:
                     continue                               # replaced, but the old content went to a name that was free
+                why = ('lines were appended, which only settings.yaml may gain' if d['appended'] and d['after'] not in ('absent', 'dir')
+                       else 'not an append; old content not moved to a free name')
                 fails.append(dict(where, **{'class': 'existing-file-not-kept', 'path': p,
-                                            'observed': f'{" ".join(st["argv"])}: {p} {d["before"]} -> {d["after"]} (not an append; old content not moved to a free name)'}))
+                                            'observed': f'{" ".join(st["argv"])}: {p} {d["before"]} -> {d["after"]} ({why})'}))
     return fails
 
 
@@ -114,8 +205,8 @@ def classify(f):
 
 
 def run_all(cases):
-    model = common.Driver().batch([{'op': 'fsseq', 'variant': 'auto', 'shape': c['shape'], 'layout': c['layout'], 'programs': c['programs']}
-                                   for c in cases])
+    model = common.Driver().batch([{'op': 'fsseq', 'variant': 'auto', 'shape': c['shape'], 'layout': c['layout'], 'programs': c['programs'],
+                                    'extra': model_extra(c)} for c in cases])
     with fsmon.Pool(16) as pool:
         real = pool.map(cases)
     return model, real
@@ -181,11 +272,50 @@ def run(ctx):
         ctx.notes['correspondence_failures'] = len(corr_fail)
         ctx.notes['correspondence_examples'] = corr_fail[:4]
     ctx.notes['stats'] = stats
+    # what the budget folders held beyond the bare shape, and how many commands ran on such folders
+    var = {'cases': len(cases), 'bare_shape': 0, 'users_gitignore': {}, 'users_gitignore_without_data_and_output_entries': 0,
+           'foreign_files': 0, 'cases_with_foreign_files': 0, 'files_with_unusual_mode': 0, 'files_beside_the_budget_folder': 0,
+           'views_file_key': 0, 'views_file_key_dangling': 0, 'merchants_file_key_dangling': 0, 'missing_statement_source': 0,
+           'commands_on_dangling_views_file': {}, 'init_with_users_gitignore': 0, 'largest_tree': 0}
+    try:
+        for c, r in zip(cases, real):
+            ex = c.get('extra_files') or {}
+            if not (ex or c.get('root_files') or c.get('vf_key') or c.get('missing_source')):
+                var['bare_shape'] += 1
+            gi = ex.get('.gitignore')
+            if gi:
+                var['users_gitignore'][gi['kind']] = var['users_gitignore'].get(gi['kind'], 0) + 1
+                var['users_gitignore_without_data_and_output_entries'] += gi['kind'] not in ('tallys-own', 'both-other-spelling')
+                var['init_with_users_gitignore'] += sum(1 for p in c['programs'] if p == 'init')
+            nf = sum(1 for k in ex if k != '.gitignore')
+            var['foreign_files'] += nf
+            var['cases_with_foreign_files'] += bool(nf)
+            var['files_with_unusual_mode'] += sum(1 for v in ex.values() if v.get('mode') is not None)
+            var['files_beside_the_budget_folder'] += len(c.get('root_files') or {})
+            var['views_file_key'] += bool(c.get('vf_key'))
+            dangling = bool(c.get('vf_key')) and not c['shape']['views']
+            var['views_file_key_dangling'] += dangling
+            var['merchants_file_key_dangling'] += c['shape']['settings'] == 'keyRules' and not c['shape']['rules']
+            var['missing_statement_source'] += bool(c.get('missing_source'))
+            if dangling and r.get('steps'):
+                key = ' '.join(a for a in r['steps'][0]['argv'] if '/' not in a)       # the first command meets the dangling reference
+                var['commands_on_dangling_views_file'][key] = var['commands_on_dangling_views_file'].get(key, 0) + 1
+            var['largest_tree'] = max([var['largest_tree']] + [st.get('tree_size', 0) for st in r.get('steps', [])])
+    except Exception as e:                                               # noqa
+        var['error'] = repr(e)[:200]
+    ctx.notes['budget_variations'] = var
     ctx.cov.update(evaluations=stats['commands'], distinct_nontrivial=nontriv, traces_validated_against_impl=stats['commands'],
                    rule='one case = a budget (480 shapes × old/new layout) and a sequence of 2–4 commands run non-interactively by the real '
-                        'CLI under the audit hook, every file hashed before/after each command; legacy budgets with rules get the fixed '
-                        'sequence read-only, up, init|up --migrate, read-only; non-trivial = a legacy-CSV budget on which some command '
-                        'changed the tree')
+                        'CLI under the audit hook, every file AND directory of the whole working directory hashed (+ permission bits) before/after '
+                        'each command; legacy budgets with rules get the fixed sequence read-only, up, init|up --migrate, read-only. About half of '
+                        'the budgets hold more than the bare shape: a .gitignore of the user\'s own (7 kinds: unrelated entries, data/ only, both '
+                        'entries spelled otherwise, a negation, empty, no final newline, tally\'s own), README / notes / dotfiles / files named like '
+                        'tally\'s (settings.yaml.bak, settings.yml, merchants.rules.old, merchants.rules~, views.rules.example, rule/view/settings '
+                        'files one level up, data/archive/…, data/bank.csv.orig) with modes 600/444/755/640, files beside tally/ (new layout); and '
+                        'settings that point at what is not there: views_file as a real key with views.rules absent, merchants_file with the rules '
+                        'file absent, a second data source without its statement (counts: notes.budget_variations). Frame condition: read-only '
+                        'commands change nothing (bytes, modes, new paths) outside output/; init / up --migrate keep every existing file and '
+                        'create only the documented ones. non-trivial = a legacy-CSV budget on which some command changed the tree')
 
     def search():
         import random
